@@ -144,6 +144,13 @@ def plan(rng, tier):
                 steps.append(["m", "update",
                               [[rng.randrange(nk), rng.randrange(nv)]
                                for _ in range(rng.randint(1, 4))]])
+        elif cfg["stored"] and is_tree(kind) and r < 0.1 + p_mut + 0.015:
+            # directed: a lazy sequence parked in a leaf that exists only in
+            # this transaction (split off the parked leaf), the transaction
+            # aborted -- the tree forgets the leaf, the sequence's finger is
+            # the last thing that holds it -- and the sequence used again
+            steps.append(["@orphan", rng.choice(sorted(open_slots)),
+                          rng.randrange(nv), rng.randint(1, 40)])
         elif cfg["stored"] and r < 0.1 + p_mut + 0.12:
             steps.append(rng.choice([["commit"], ["commit"],
                                      ["evict", "minimize"],
@@ -467,6 +474,37 @@ class _Run(object):
         for s in self.cursors:
             self.leaf_event.setdefault(s, "changed")
 
+    def orphan(self, step):
+        slot = step[1]
+        cur = self.cursors.get(slot)
+        if cur is None or cur.is_iter or not is_tree(self.kind):
+            return "not-applicable"
+        self.commit()
+        w = walker.walk(self.c, self.dom, self.mapping)
+        before = set(id(b) for b in w.leaves)
+        w = None
+        self.mutate(["m", "@split_parked", slot, step[2]])
+        w = walker.walk(self.c, self.dom, self.mapping)
+        n = len(w.leaves)
+        new = [[self.dom.index_of(k) for k in b.keys()]
+               for i, b in enumerate(w.leaves)
+               if id(b) not in before and i < n - 1]
+        w = None        # (the walk must not keep the leaves alive)
+        new = [ks for ks in new if ks]
+        if not new:
+            return "no-new-leaf"
+        r = sorted(self.model).index(new[0][0])
+        self.cursor_step(["c", slot, "idx", r])
+        self.conn.abort()
+        self.model = dict(self.committed)
+        for s in self.cursors:
+            self.leaf_event[s] = "aborted"
+        self.ctx.fault("abort-under-cursor")
+        self.ctx.probe("cursor-on-orphaned-leaf")
+        out = self.cursor_step(["c", slot, "slice", r, r + step[3]])
+        self.cursor_step(["c", slot, "idx", r])
+        return out
+
     # -- cursor side
     def check_entry(self, cur, e, sig, what):
         dom = self.dom
@@ -612,6 +650,9 @@ def execute(plan, ctx):
         elif t == "c":
             out = run.cursor_step(step)
             ctx.ev("c", step[1], step[2], out)
+        elif t == "@orphan":
+            if run.conn is not None:
+                ctx.ev("orphan", run.orphan(step))
         elif t == "commit":
             if run.conn is not None:
                 run.commit()
